@@ -41,7 +41,24 @@ def generate(ctx):
                "trainer": trainer, "signs": rng.randrange(4), "trace_mode": rng.choice(["cumulative", "nearest"]),
                "delayed": bool(delay) and rng.random() < 0.5, "inplace": rng.random() < 0.5,
                "reducer": rng.choice(REDUCERS), "reducer_duration": rng.choice([0.0, 3.0, 2.5, 1.0]), "classifier": target == "clone" or rng.random() < 0.5, "vmon": ["ca", "ema", None][(i // 9) % 3], "update_every": [1, 3][(i // 2) % 2],
-               "target": target, "reducer_clear_at": rng.choice([None, 2, 4])}
+               "target": target, "reducer_clear_at": rng.choice([None, 2, 4]),
+               # histories that started single-slot and were grown by a setter afterwards (connection delay range, reducer duration)
+               "grown": rng.random() < 0.4}
+
+
+def _mk_reducer(desc, dt, dur):
+    r = desc["reducer"]
+    if r == "trace":
+        return observe.CumulativeTraceReducer(dt, 8.0, 1.0, True, duration=dur, inplace=desc["inplace"])
+    if r == "event":
+        return observe.EventReducer(dt, lambda x: x.bool(), "nan", dur, inplace=desc["inplace"])
+    if r == "ema":
+        return observe.EMAReducer(dt, 0.3, duration=dur, inplace=desc["inplace"])
+    if r == "ca":
+        return observe.CAReducer(dt, duration=dur, inplace=desc["inplace"])
+    if r == "passthrough":
+        return observe.PassthroughReducer(dt, duration=dur, inplace=desc["inplace"])
+    return None
 
 
 class System:
@@ -64,19 +81,13 @@ class System:
                 if desc["trainer"] in tr.NEEDS_DELAY and cell.connection.delayedby is None:
                     continue
                 self.trainer.register_cell(f"{cn}__{nn_}", cell)
-        self.reducer = None
         dt, dur = desc["dt"], desc["reducer_duration"] * desc["dt"]
-        r = desc["reducer"]
-        if r == "trace":
-            self.reducer = observe.CumulativeTraceReducer(dt, 8.0, 1.0, True, duration=dur, inplace=desc["inplace"])
-        elif r == "event":
-            self.reducer = observe.EventReducer(dt, lambda x: x.bool(), "nan", dur, inplace=desc["inplace"])
-        elif r == "ema":
-            self.reducer = observe.EMAReducer(dt, 0.3, duration=dur, inplace=desc["inplace"])
-        elif r == "ca":
-            self.reducer = observe.CAReducer(dt, duration=dur, inplace=desc["inplace"])
-        elif r == "passthrough":
-            self.reducer = observe.PassthroughReducer(dt, duration=dur, inplace=desc["inplace"])
+        if desc.get("grown") and dur > 0:
+            self.reducer = _mk_reducer(desc, dt, 0.0)
+            if self.reducer is not None:
+                self.reducer.duration = dur
+        else:
+            self.reducer = _mk_reducer(desc, dt, dur)
         self.first_out = sorted(self.parts.neurons)[0]
         # a user-attached monitor that observes a persistent state tensor directly (default single-slot, out-of-place record)
         self.vmon = None
@@ -168,8 +179,10 @@ def run_case(ctx, desc):
     ref_final = ref.full_state()
     for k in range(0, T + 1):
         rdesc = {**desc, "checkpoint_at": k}
-        ctx.case(f"{tag}/{desc['target']}/k{'0' if k == 0 else 'T' if k == T else 'mid'}/delay{desc['delay']}/{'ip' if desc['inplace'] else 'oop'}")
+        ctx.case(f"{tag}/{desc['target']}/k{'0' if k == 0 else 'T' if k == T else 'mid'}/delay{desc['delay']}/{'ip' if desc['inplace'] else 'oop'}{'/grown' if desc.get('grown') else ''}")
         ctx.count("checkpoint_positions_checked")
+        if desc.get("grown") and (desc["delay"] or desc["reducer_duration"]):
+            ctx.count("checkpoints_of_histories_grown_by_setters")
         try:
             # RecurrentSerial creates its feedback-spike buffer on the first step, like the lazily shaped recorders
             lazy = desc["trainer"] != "none" or desc["reducer"] != "none" or desc["kind"] == "recurrent" or bool(desc.get("vmon"))
